@@ -362,3 +362,26 @@ _instances_before_simplex = instances
 def instances(tier):       # noqa: F811
     from .common import simplex_lemma_instances
     return _instances_before_simplex(tier) + simplex_lemma_instances('C10')
+
+
+_instances_before_history4 = instances
+
+
+def instances(tier):       # noqa: F811
+    from .common import with_history
+    from pb_bss.extraction import beamformer as bf
+
+    def warm():
+        rng = np.random.RandomState(5)
+        for shape, mshape, kw in (((3, 4, 6), (3, 2, 6), {}), ((4, 6), (6,), {}), ((6, 4, 3), (6, 2, 3), {'sensor_dim': 1, 'source_dim': 1, 'time_dim': 0}),
+                                  ((2, 3, 4, 6), (2, 2, 3, 6), {'source_dim': 1})):
+            x = rng.normal(size=shape) + 1j * rng.normal(size=shape)
+            bf.get_power_spectral_density_matrix(x, rng.uniform(size=mshape), **kw)
+            bf.get_power_spectral_density_matrix(x, **{k: v for k, v in kw.items() if k != 'source_dim'})
+        bf.condition_covariance(np.eye(3) + 0j, 0.1)
+    extra = [with_history(psd_instance((2,), 2, 2, 2, 'src'), warm, 'other-layouts'),
+             with_history(psd_instance((2,), 2, 2, 2, 'src', sensor_dim=0, source_dim=-2), warm, 'other-layouts'),
+             with_history(psd_instance((), 2, 3, 1, 'nosrc'), warm, 'other-layouts'),
+             with_history(cc_instance((2,), 2), warm, 'other-layouts')]
+    return _instances_before_history4(tier) + extra
+
